@@ -154,15 +154,15 @@ class extract_visitor(NodeVisitor):
         self.visit(node.iter)
         cur = self.flow
 
-        body_start = self.make_flow('for', [cur])
+        body_start = tail = self.make_flow('for', [cur])
         for nn, _idx in get_indexes_for_target(node.target, [], []):
             if not isinstance(nn, AstName):
                 # attribute or subscript target: binds no name, reads its parts
-                self.visit_in_flow(nn, body_start)
+                tail = self.visit_in_flow(nn, tail)
                 continue
             name = nn  # type: ast.Name # type: ignore[assignment]
             body_start.add_name(AssignedName(name.id, body_loc(node.body), np(name), node.iter))
-        body = self.visit_in_flow(node.body, body_start)
+        body = self.visit_in_flow(node.body, tail)
         body_start.loop(body)
 
         orelse = self.visit_in_flow(node.orelse, self.make_flow('for-else', [cur, body]))
@@ -304,9 +304,10 @@ class extract_visitor(NodeVisitor):
     def visit_ClassDef(self, node):
         # type: (ast.ClassDef) -> None
         cur = self.flow
-        self.visit_in_flow(node.decorator_list, cur)
-        self.visit_in_flow(node.bases, cur)
-        self.visit_in_flow([k.value for k in getattr(node, 'keywords', [])], cur)
+        # an expression may open regions of its own (a comprehension)
+        cur = self.visit_in_flow(node.decorator_list, cur)
+        cur = self.visit_in_flow(node.bases, cur)
+        cur = self.visit_in_flow([k.value for k in getattr(node, 'keywords', [])], cur)
         scope = ClassScope(cur.scope, node, top=self.top)
         cur.add_name(scope)  # type: ignore[arg-type]  # TODO
         self.visit_in_flow(node.body, scope.flow)
@@ -323,12 +324,12 @@ class extract_visitor(NodeVisitor):
         # type: (ast.ListComp | ast.GeneratorExp | ast.DictComp | ast.SetComp) -> None
         p = cur = self.flow
         for g in node.generators:
-            self.visit_in_flow(g.iter, p)
+            p = self.visit_in_flow(g.iter, p)
             pp = p
             p = self.make_flow('comp', [p])
             for nn, _idx in get_indexes_for_target(g.target, [], []):
                 if not isinstance(nn, AstName):
-                    self.visit_in_flow(nn, p)
+                    p = self.visit_in_flow(nn, p)
                     continue
                 name = nn  # type: ast.Name # type: ignore[assignment]
                 name.flow = pp  # type: ignore[attr-defined]
@@ -336,15 +337,19 @@ class extract_visitor(NodeVisitor):
 
             if g.ifs:
                 known = set(map(id, p._names))
+                regions = [p]
                 for inode in g.ifs:
-                    self.visit_in_flow(inode, p)
+                    p = self.visit_in_flow(inode, p)
+                    if p is not regions[-1]:
+                        regions.append(p)
                 # names bound in a condition (walrus) are evaluated before the
                 # element expression, which precedes them in the text
-                bound = [n for n in p._names if id(n) not in known]
-                if bound:
-                    for n in bound:
-                        n.location = np(node)
-                    p._names.sort()
+                for r in regions:
+                    bound = [n for n in r._names if id(n) not in known]
+                    if bound:
+                        for n in bound:
+                            n.location = np(node)
+                        r._names.sort()
 
         # the element may hold comprehensions of its own, which open regions
         if hasattr(node, 'key'):
